@@ -143,3 +143,12 @@ def run(ctx: Ctx):  # noqa: F811
     ctx.floor("out-of-range representatives checked", n, 20)
     for _ in range(n - sum(1 for f in sub.findings if f.rule == "reject-out-of-range")):
         ctx.ok("int-range-enforced")
+
+
+_run_before_converter_precondition = run
+
+
+def run(ctx: Ctx):  # noqa: F811
+    _run_before_converter_precondition(ctx)
+    from . import _sitebase as _sb
+    _sb.converter_precondition(ctx)
